@@ -57,6 +57,10 @@ func (s *scanner) Scan(value bytes.Bytes) (*Number, error) {
 		return nil, err
 	}
 
+	if len(n.nat) == 0 { // negative zero equals zero
+		n.neg = false
+	}
+
 	return &n, nil
 }
 
